@@ -32,6 +32,8 @@ impl Engine for C06 {
             tab_desc_pct: 12,
             utf8_id_pct: 15,
             dup_id_pct: 3,
+            mega_1_in: 0,
+            twin_mega_1_in: 0,
         };
         let mut records = g.gen(rng);
         // sometimes a few very long records so that lines straddle the 8 KiB
